@@ -1,4 +1,5 @@
 import Operon.Lemmas.C02
+import Operon.Lemmas.C02Logic
 import Operon.Gen.MitoFacts
 /-!
 # C02 — the safe evaluator computes the value Python computes on the allowed subset
@@ -132,11 +133,99 @@ theorem c02_logic_is_bool_of_walk (T : Tables) (env : Env) (e : Expr) (b : Val)
     | error er => simp [R.bind, h1, h2] at h
     | ok t => exact ⟨v, t, by simp [h1], by simp [h2], by simpa [R.bind, R.pure, h1, h2] using h.symm⟩
 
+/-- The logic pathway against PYTHON (not against its own definition).  `krebs` evaluates the tree in which the names
+    `true` / `false` were replaced by constants; Python's reading of the ORIGINAL text on that pathway is `pyRun` in the
+    namespace `namesB T.names` = allow-listed names plus `true`, `false`, bound by `envB env` to the booleans.  For every
+    tree, every environment whose comparisons return booleans, every table content matching Python's operators:
+    (1) success ⇒ the value is `bool(w)` for Python's value `w` of the original tree;
+    (2) Python raises (at compile time — repeated keyword — or while evaluating) ⇒ the engine reports failure;
+    (3) `bool()` of Python's value raises ⇒ the engine reports failure;
+    (4) nothing dropped: on success the engine's interactions are exactly Python's, in order, except that Python looks
+        `true` / `false` up in its namespace and the engine does not (then one final `bool()`). -/
+theorem c02_logic_pathway_refines (T : Tables) (env : Env) (hT : TablesSound T) (hc : CmpReturnsBool env) (e : Expr) :
+    (∀ b, (krebs T env e).2 = .ok b →
+        ∃ w t, (pyRun (namesB T.names) (envB env) e).2 = .ok w ∧ (truthyR env w).2 = .ok t ∧ b = .bool t ∧
+          (krebs T env e).1 =
+            (pyRun (namesB T.names) (envB env) e).1.filter (fun a => !isBoolLookup a) ++ (truthyR env w).1) ∧
+    ((pyRun (namesB T.names) (envB env) e).failed → (krebs T env e).failed) ∧
+    (∀ w, (pyRun (namesB T.names) (envB env) e).2 = .ok w → (truthyR env w).failed → (krebs T env e).failed) := by
+  obtain ⟨hr2, hr1⟩ := pyEval_relB T.names env e
+  unfold krebs pyRun
+  split
+  · exact ⟨fun b h => by simp [R.fail] at h, fun _ => failed_fail _, fun w h => by simp [R.fail] at h⟩
+  · rcases walk_sim T env hT hc (normalise e) with hf | heq
+    · -- the walker fails on the rewritten tree: no success to explain, and the engine does report failure
+      refine ⟨fun b h => ?_, fun _ => bind_failed_left _ _ hf, fun _ _ _ => bind_failed_left _ _ hf⟩
+      obtain ⟨er, he⟩ := hf
+      rcases hw : walk T env (normalise e) with ⟨t1, r1⟩
+      rw [hw] at he h; simp only at he; subst he
+      simp [R.bind] at h
+    · rw [heq]
+      rcases hp : pyEval T.names env (normalise e) with ⟨t1, r1⟩
+      rw [hp] at hr1 hr2
+      simp only at hr1 hr2
+      cases r1 with
+      | error er =>
+        refine ⟨fun b h => by simp [R.bind] at h, fun _ => ⟨er, rfl⟩, fun w hw _ => ?_⟩
+        rw [← hr2] at hw; cases hw
+      | ok v =>
+        refine ⟨fun b h => ?_, fun hfail => ?_, fun w hw hfw => ?_⟩
+        · rcases ht : truthyR env v with ⟨t2, r2⟩
+          cases r2 with
+          | error er => simp [R.bind, ht] at h
+          | ok t =>
+            refine ⟨v, t, hr2.symm, by simp [ht], ?_, ?_⟩
+            · simpa [R.bind, R.pure, ht] using h.symm
+            · simp [R.bind, R.pure, ht, hr1]
+        · obtain ⟨er, he⟩ := hfail
+          rw [← hr2] at he; cases he
+        · rw [← hr2] at hw
+          cases hw
+          obtain ⟨er, he⟩ := bind_failed_left (truthyR env v) (fun b => R.pure (Val.bool b)) hfw
+          exact ⟨er, he⟩
+
+/-- At the ENTRY POINT (`Mitochondria.metabolize`, pathway forced or auto-detected — `d` is arbitrary): a success
+    result on the math pathway carries Python's value of the parsed text (compile, then evaluate, with exactly the
+    allow-listed names) and made exactly Python's interactions; a success result on the logic pathway carries `bool(w)`
+    of Python's value `w` in the namespace that additionally binds `true` / `false`. -/
+theorem c02_entry_point_refines (T : Tables) (env : Env) (hT : TablesSound T) (hc : CmpReturnsBool env) (cfg : Cfg)
+    (latched : Bool) (d : Pathway) (inp : Inp) (forced : Option Pathway) (tr : List Act) (v : Val) (r : Bool)
+    (p : Pathway) (h : metabolize T env cfg latched d inp forced = (tr, .result true (some v) r (some p))) :
+    (p = .glycolysis → ∃ e, inp.parsed = some e ∧ (pyRun T.names env e).2 = .ok v ∧ tr = (pyRun T.names env e).1) ∧
+    (p = .krebs → ∃ e w t, inp.parsed = some e ∧ (pyRun (namesB T.names) (envB env) e).2 = .ok w ∧
+        (truthyR env w).2 = .ok t ∧ v = .bool t) := by
+  obtain ⟨_, hb⟩ := metabolize_success T env cfg latched d inp forced tr v r p h
+  constructor
+  · intro hp; subst hp
+    unfold pathwayBody at hb
+    simp only at hb
+    split at hb
+    · simp [R.fail] at hb
+    · rename_i e he
+      have h2 : (glycolysis T env e).2 = .ok v := by rw [hb]
+      obtain ⟨g1, g2⟩ := (c02_math_pathway_refines T env hT hc e).1 v h2
+      exact ⟨e, he, g1, by rw [← g2, hb]⟩
+  · intro hp; subst hp
+    unfold pathwayBody at hb
+    simp only at hb
+    split at hb
+    · simp [R.fail] at hb
+    · rename_i e he
+      have h2 : (krebs T env e).2 = .ok v := by rw [hb]
+      obtain ⟨w, t, g1, g2, g3, _⟩ := (c02_logic_pathway_refines T env hT hc e).1 v h2
+      exact ⟨e, w, t, he, g1, g2, g3⟩
+
 /-- Literal contents are never rewritten: constants (strings included) are untouched by the normalisation, and so
     is every name other than `true` / `false`. -/
 theorem c02_literals_untouched (v : Val) (n : String) (h1 : n ≠ "true") (h2 : n ≠ "false") :
     normalise (.const v) = .const v ∧ normalise (.name n) = .name n := by
   simp [normalise, h1, h2]
+
+/-- … at any depth: a tree in which the names `true` / `false` do not occur (whatever its string constants say — e.g.
+    `'true' == '1'`, `len('False')`) is left exactly as it is by the logic pathway's rewriting. -/
+theorem c02_literals_untouched_at_any_depth (e : Expr) (h : "true" ∉ namesOf e ∧ "false" ∉ namesOf e) :
+    normalise e = e :=
+  normalise_eq_self e h.1 h.2
 
 /-! ### Non-vacuity -/
 
@@ -165,6 +254,22 @@ example : hasDupKw [some "ndigits", some "ndigits"] = true := by decide
 
 /-- `c02_python_raises_engine_fails`: Python raises NameError on an unbound name -/
 example : (pyEval Gen.tables.names envInt (.name "zz")).failed := ⟨_, rfl⟩
+
+/-- `c02_logic_pathway_refines`: `true and pi` on the logic pathway succeeds; Python looks `true` up, the engine does not -/
+example : (krebs Gen.tables envInt (.boolop .and [.name "true", .name "pi"])).2 = .ok (.bool true) ∧
+    (pyRun (namesB Gen.tables.names) (envB envInt) (.boolop .and [.name "true", .name "pi"])).1
+      = [.lookup "true", .lookup "pi"] ∧
+    (krebs Gen.tables envInt (.boolop .and [.name "true", .name "pi"])).1 = [.lookup "pi", .truthy 1] := by
+  refine ⟨rfl, rfl, rfl⟩
+
+/-- `c02_entry_point_refines`: a success result on the auto-detected logic pathway -/
+example : metabolize Gen.tables envInt ⟨10000, true, false, [], none, true, true, true⟩ false .krebs
+    ⟨4, some (.name "true"), none, false⟩ none = ([], .result true (some (.bool true)) false (some .krebs)) := by rfl
+
+/-- `c02_literals_untouched_at_any_depth`: `'true' == '1'` (two string constants, no name) -/
+example : "true" ∉ namesOf (.compare (.const (.h 1)) [.eq] [.const (.h 2)]) ∧
+    "false" ∉ namesOf (.compare (.const (.h 1)) [.eq] [.const (.h 2)]) := by
+  simp [namesOf, namesOfList]
 
 /-- `c02_logic_is_bool_of_walk`: `true` on the logic pathway -/
 example : (krebs Gen.tables envInt (.name "true")).2 = .ok (.bool true) := by rfl
